@@ -142,6 +142,20 @@ func gen(r *rand.Rand, id int, seed, tipUnix int64, kind string) Hist {
 	return h
 }
 
+// exposed reports whether a node whose only misbehaviour is a filter or
+// block lie received at least one request whose answer carries the lie.
+func exposed(b *ns.Behaviour, received string) bool {
+	got := func(cmd string) bool { return strings.Contains(" "+received, " "+cmd+"=") }
+	switch {
+	case b.Filter != nil:
+		return (b.Filter.InCheckpt && got("getcfcheckpt")) || (b.Filter.InHeaders && got("getcfheaders")) ||
+			(b.Filter.InFilter && got("getcfilters"))
+	case b.Block != nil:
+		return got("getdata")
+	}
+	return true
+}
+
 func bools(b []bool) string {
 	it := make([]string, len(b))
 	for i, x := range b {
@@ -223,6 +237,16 @@ func main() {
 		}
 		if !h.Res.StopReturned {
 			rep.ImplFailures = append(rep.ImplFailures, c.ImplFailure{Case: fmt.Sprint(h.ID), What: "Stop did not return within 30s at the end of the scenario", Tag: "stop-hang"})
+		}
+		// A liar that was never asked a question it lies about (it
+		// connected after the client had finished that part of the sync)
+		// has shown no misbehaviour: no ban can be demanded of the client.
+		for j := range h.Nodes {
+			if j < len(h.Expect) && h.Expect[j] == 1 && j < len(h.Res.Received) && !exposed(&h.Nodes[j].B, h.Res.Received[j]) {
+				h.Expect[j] = 3
+				h.Kinds = append(h.Kinds, "liar-never-asked")
+				rep.Histogram["liar-never-asked"]++
+			}
 		}
 		if !first {
 			sb.WriteString(";\n")
